@@ -4,11 +4,12 @@ import re
 import vlib
 
 ERRCODE = {1: "AlreadyUsed", 2: "NotUsed", 3: "NotOwned", 4: "BorrowShadowed", 5: "UnnamedExpr",
-           6: "DropAfterCall", 7: "Crash"}
+           6: "DropAfterCall", 7: "Crash", 8: "UnnamedAccess"}
 IMPL_CLASS = {"AlreadyUsedError": "AlreadyUsed", "BorrowSubPlaceUsedError": "AlreadyUsed",
               "PlaceNotUsedError": "NotUsed", "NotOwnedError": "NotOwned",
               "BorrowShadowedError": "BorrowShadowed", "UnnamedExprNotUsedError": "UnnamedExpr",
-              "DropAfterCallError": "DropAfterCall"}
+              "DropAfterCallError": "DropAfterCall", "UnnamedFieldNotUsedError": "UnnamedAccess",
+              "UnnamedTupleNotUsedError": "UnnamedAccess"}
 
 
 def b(x):
@@ -35,6 +36,8 @@ def c_expr(e):
     if e[0] == "C":
         return ("XCall " + lst([f"({b(i)}, {b(d)})" for i, d in e[1]]) + " "
                 + lst([c_expr(a) for a in e[2]]))
+    if e[0] == "D":
+        return f"XDrop ({c_expr(e[1])}) {b(e[2])}"
     return "XNode " + lst([c_expr(c) for c in e[1]])
 
 
@@ -124,7 +127,7 @@ def agree(impl, model, names):
     cls = IMPL_CLASS.get(impl["cls"])
     if cls != model["cls"]:
         return f"implementation raises {impl['cls']}({impl['place']}), model: {show(model, names)}"
-    if cls in ("UnnamedExpr", "DropAfterCall"):
+    if cls in ("UnnamedExpr", "DropAfterCall", "UnnamedAccess"):
         return None
     cands = [names[i] for i in model["ids"] if i < len(names)]
     if impl["place"] not in cands:
